@@ -271,6 +271,45 @@ fn main() {
             let b: Vec<u8> = (0..n).map(|_| if uniform { rng.byte() } else { ALPHABET[rng.below(ALPHABET.len())] }).collect();
             add(b, if uniform { "random" } else { "random-alphabet" }, &mut inputs);
         }
+        // long containers of tiny elements: where the decoder's memory use per input byte peaks
+        for n in [300usize, 1000] {
+            let count = |n: usize| vec![253u8, (n & 0xff) as u8, (n >> 8) as u8];
+            let mut v1 = vec![17u8];
+            v1.extend(count(n));
+            v1.extend(std::iter::repeat(0u8).take(n));
+            add(v1, "stress", &mut inputs);
+            let mut v2 = vec![43u8];
+            for _ in 0..n {
+                v2.extend([1u8, 0]);
+            }
+            v2.push(0);
+            add(v2, "stress", &mut inputs);
+            let mut m1 = vec![21u8]; // U16Map1: keys 0..n (one or three bytes each), values None
+            m1.extend(count(n));
+            for k in 0..n {
+                if k > 253 {
+                    m1.extend([255u8, (k & 0xff) as u8, (k >> 8) as u8]);
+                } else {
+                    m1.push(k as u8);
+                }
+                m1.push(0);
+            }
+            add(m1, "stress", &mut inputs);
+            let mut s1 = vec![29u8]; // U8Set1 with n (repeating) keys
+            s1.extend(count(n));
+            s1.extend((0..n).map(|k| k as u8));
+            add(s1, "stress", &mut inputs);
+            let mut st = vec![13u8]; // string
+            st.extend(count(n));
+            st.extend(std::iter::repeat(b'a').take(n));
+            add(st, "stress", &mut inputs);
+            let mut b2 = vec![44u8]; // bytes in chunks of one
+            for k in 0..n {
+                b2.extend([1u8, k as u8]);
+            }
+            b2.push(0);
+            add(b2, "stress", &mut inputs);
+        }
         // every short string over the reduced alphabet
         let mut level: Vec<Vec<u8>> = vec![vec![]];
         for _ in 0..short_len {
@@ -293,8 +332,10 @@ fn main() {
     let mut by_src: std::collections::BTreeMap<String, usize> = Default::default();
     let mut max_ratio = (0f64, 0usize, 0usize);
     let mut panics = 0usize;
+    let nontrivial = inputs.iter().filter(|(b, src)| b.len() >= 2 && src != "valid").count();
     // on a thread with a modest stack: deep recursion of the code under test is part of what is observed
     let n_inputs = inputs.len();
+    let mut samples: Vec<J> = Vec::new();
     let handle = std::thread::Builder::new()
         .stack_size(8 * 1024 * 1024)
         .spawn(move || {
@@ -318,16 +359,19 @@ fn main() {
                 if r.to_string().contains("\"panic\"") {
                     panics += 1;
                 }
+                if samples.len() < 3 && matches!(src.as_str(), "inflate" | "epoch-swap" | "splice") && r["dec"]["r"] != r["skip"]["r"] || (samples.is_empty() && i == 40) {
+                    samples.push(json!({"in": r["in"], "src": src, "dec": r["dec"], "skip": r["skip"], "conv": r["conv"]["r"], "alloc": r["alloc"]}));
+                }
                 writeln!(w, "{r}").unwrap();
             }
             w.flush().unwrap();
-            (by_src, max_ratio, panics)
+            (by_src, max_ratio, panics, samples)
         })
         .unwrap();
-    let (by_src, max_ratio, panics) = handle.join().unwrap();
+    let (by_src, max_ratio, panics, samples) = handle.join().unwrap();
     println!(
         "{}",
-        json!({"records": n_inputs, "by_source": by_src, "panics": panics,
+        json!({"records": n_inputs, "nontrivial": nontrivial, "samples": samples, "by_source": by_src, "panics": panics,
                "max_alloc_ratio": {"ratio": max_ratio.0, "peak": max_ratio.1, "len": max_ratio.2}})
     );
 }
